@@ -299,6 +299,24 @@ class EvolveStateVector(torch.autograd.Function):
         grad_int_mat = None
         grad_state_in = None
 
+        if not grad_state_out.any():
+            # Nothing flows back through this step: every gradient is exactly zero.
+            # The Krylov iterations below cannot start from the zero vector.
+            return (
+                None,
+                torch.zeros_like(omegas) if ctx.needs_input_grad[1] else None,
+                torch.zeros_like(deltas) if ctx.needs_input_grad[2] else None,
+                torch.zeros_like(phis) if ctx.needs_input_grad[3] else None,
+                (
+                    torch.zeros_like(interaction_matrix)
+                    if ctx.needs_input_grad[4]
+                    else None
+                ),
+                torch.zeros_like(state) if ctx.needs_input_grad[5] else None,
+                None,
+                None,
+            )
+
         ham = EvolveStateVector.get_hamiltonian(
             omegas=omegas,
             deltas=deltas,
